@@ -1,5 +1,5 @@
 (* Properties/C07.v — Handshakes agree and do not depend on TCP segmentation. *)
-From Storrent Require Import Base.Bytes Base.Bencode Base.Crypto Model.Wire Model.Hs Model.Mse Proof.Crypto Proof.Hs Proof.Mse Proof.MseAgree.
+From Storrent Require Import Base.Bytes Base.Bencode Base.Crypto Model.Wire Model.Hs Model.Mse Proof.Crypto Proof.Hs Proof.Mse Proof.MseAgree Proof.Dh.
 Open Scope N_scope.
 
 (* The plain and the MSE handshake, in both roles, are the programs [client_prog] and
@@ -54,3 +54,16 @@ Theorem c07_plain_agreement : forall mexp co so ih cid sid others payload_c payl
     p_amb (snd c) = false /\ p_amb (snd s) = false.
 Proof. exact plain_agreement. Qed.
 Print Assumptions c07_plain_agreement.
+
+(* The two ends of the MSE key exchange agree on the shared secret S, for all secret exponents:
+   the square-and-multiply exponentiation of Base/Crypto.v (the one the checker runs against
+   math/big's results on every run) computes b^e mod m, hence (2^Xb)^Xa = (2^Xa)^Xb mod P. *)
+Theorem c07_modexp_spec : forall b e m, m <> 0 -> modexp b e m = b ^ e mod m.
+Proof. exact modexp_spec. Qed.
+Print Assumptions c07_modexp_spec.
+
+Theorem c07_secret_agrees : forall xa xb,
+  let mexp b e := modexp b e P768 in
+  mexp (mexp 2 xb) xa = mexp (mexp 2 xa) xb.
+Proof. exact mse_secret_agrees. Qed.
+Print Assumptions c07_secret_agrees.
